@@ -63,13 +63,15 @@ type reqSpec struct {
 }
 
 type qeSpec struct {
-	Res     string    `json:"res"`      // m c u p g
-	ID      int       `json:"id"`       // resource id
-	ViaCall bool      `json:"via_call"` // created from a call handler instead of Service.With
-	FailSub bool      `json:"fail_sub"`
-	Reqs    []reqSpec `json:"reqs"`
-	Run     int       `json:"run,omitempty"`   // restart scenario: created in this Serve run of the service object
-	Stale   int       `json:"stale,omitempty"` // restart scenario: requests sent to its subject in the NEXT run
+	Res       string    `json:"res"`      // m c u p g
+	ID        int       `json:"id"`       // resource id
+	ViaCall   bool      `json:"via_call"` // created from a call handler instead of Service.With
+	FailSub   bool      `json:"fail_sub"`
+	Reqs      []reqSpec `json:"reqs"`
+	TrigQuery string    `json:"trig_query,omitempty"` // query of the resource the query event is sent from ("" = none)
+	Nested    bool      `json:"nested,omitempty"`     // sent from inside a request callback of the previous query event (its request's query is the triggering query)
+	Run       int       `json:"run,omitempty"`        // restart scenario: created in this Serve run of the service object
+	Stale     int       `json:"stale,omitempty"`      // restart scenario: requests sent to its subject in the NEXT run
 }
 
 type scenario struct {
@@ -89,10 +91,11 @@ type scenario struct {
 // genRef names a generated scenario: generate(seed, tier, n)[index].  Replay files carry this
 // reference (scenarios of 50 query events are too large to repeat in every case description).
 type genRef struct {
-	Seed  uint64 `json:"seed"`
-	Tier  string `json:"tier"`
-	N     int    `json:"n"`
-	Index int    `json:"index"`
+	Seed   uint64 `json:"seed"`
+	Tier   string `json:"tier"`
+	N      int    `json:"n"`
+	Index  int    `json:"index"`
+	Subset bool   `json:"race_subset,omitempty"`
 }
 
 func (r *runner) desc(qe int) map[string]interface{} {
@@ -106,6 +109,19 @@ func (r *runner) desc(qe int) map[string]interface{} {
 		d["qe"] = qe
 		d["resource"] = fmt.Sprintf("test.%s.%d", q.Res, q.ID)
 		d["fail_sub"] = q.FailSub
+		d["sent_from_resource_query"] = q.TrigQuery
+		if q.Nested {
+			d["sent_from_resource_query"] = "(nested: the query of the parent's request)"
+		}
+		var zl []int
+		for j, rq := range q.Reqs {
+			if rq.PKind == 1 && payloads[1][rq.PVar%len(payloads[1])] == "" {
+				zl = append(zl, j)
+			}
+		}
+		if zl != nil {
+			d["zero_length_payload_requests"] = zl
+		}
 		d["request_phases"] = ph
 		if len(r.sc.QEs) <= 4 {
 			d["scenario"] = r.sc
@@ -116,17 +132,26 @@ func (r *runner) desc(qe int) map[string]interface{} {
 
 var payloads = [3][]string{
 	{`{"query":"%s"}`, `{"query":"%s","extra":[1,2]}`, `{"Query":"%s"}`, ` { "query" : "%s" } `, `{"x":{"query":"no"},"query":"%s"}`},
-	{``, `{}`, `{"query":""}`, `null`, `{"query":null}`, `{"other":"x"}`},
-	{`{`, `{"query":5}`, `[1]`, `"str"`, `{"query":"a"`, `nope`, `{"query":{"a":1}}`, `123`, `true`},
+	// no query: the zero-length body (nil and empty slice), null, {}, an empty or null query field, other fields only
+	{``, `{}`, ``, `{"query":""}`, `null`, ``, `{"query":null}`, `{"other":"x"}`},
+	// not decodable, whitespace-only bodies included
+	{`{`, `{"query":5}`, `[1]`, `"str"`, `{"query":"a"`, `nope`, `{"query":{"a":1}}`, `123`, `true`, ` `, "\n\t "},
 }
 
-func (q reqSpec) payload(j int) []byte {
+// sentQuery is the query of request j of query event k: unique, so that the callback can be checked to see
+// the query that was SENT (not the one of the resource the query event was sent from).
+func sentQuery(k, j int) string { return fmt.Sprintf("j=%d&t=%d.%d", j, k, j) }
+
+func (q reqSpec) payload(k, j int) []byte {
 	p := payloads[q.PKind][q.PVar%len(payloads[q.PKind])]
 	if q.PKind == 0 {
-		return []byte(fmt.Sprintf(p, "j="+strconv.Itoa(j)))
+		return []byte(fmt.Sprintf(p, sentQuery(k, j)))
 	}
 	if p == "" {
-		return nil
+		if q.PVar%2 == 0 {
+			return nil
+		}
+		return []byte{}
 	}
 	return []byte(p)
 }
@@ -157,9 +182,13 @@ func val(a action) interface{} {
 }
 
 // interpret plays a script on a real QueryRequest.
-func interpret(qr res.QueryRequest, script []action) {
+func interpret(qr res.QueryRequest, script []action, nest func(child int), rdv func()) {
 	for _, a := range script {
 		switch a.K {
+		case "rdv":
+			rdv()
+		case "nest":
+			nest(a.V)
 		case "model":
 			qr.Model(map[string]interface{}{"v": val(a)})
 		case "coll":
@@ -241,6 +270,8 @@ func optN(m int) string {
 
 func (a action) coq() string {
 	switch a.K {
+	case "nest":
+		return "AQueryEvent"
 	case "model":
 		return fmt.Sprintf("AModel %d %s", a.V, Bool(a.OK))
 	case "coll":
@@ -291,6 +322,9 @@ func (q reqSpec) coqMsg(j int) string {
 	var acts []string
 	if q.PKind == 0 {
 		for _, a := range q.Script {
+			if a.K == "rdv" {
+				continue // waits for the other callbacks and re-reads Query(): not an action on the QueryRequest
+			}
 			acts = append(acts, a.coq())
 		}
 	}
@@ -524,38 +558,43 @@ type qeState struct {
 	run     int
 	cn      *conn
 	staleN  []int // numbers of the stale requests addressed to its subject in a later run
+	rdvN    int32 // callbacks that rendezvous (requests whose script contains "rdv")
+	rdvIn   int32
+	rdvCh   chan struct{}
 }
 
 type runner struct {
-	sc      scenario
-	mu      sync.Mutex
-	log     []entry
-	passive int32
-	s       *res.Service
-	cn      *conn
-	qes     []*qeState
-	events  chan *gateEv
-	parked  []*gateEv
-	lgid    map[uint64]int
-	expect  int
-	expSeq  map[int][]int // per Serve run: subscribed query events in creation order
-	expNext map[int]int
-	run     int      // current Serve run of the service object
-	creator sync.Map // goid of a goroutine that called QueryEvent -> run
-	nStale  int
-	staleTo map[int]int // stale request number -> query event it was delivered to
-	undeliv int
-	served  chan struct{} // closed when the current Serve call has returned
-	impl    []ImplViolation
-	stalled bool
-	aborted bool
-	shut    bool
-	cur     sync.Map // goid -> qe index being created
-	inboxK  sync.Map // inbox -> qe index
-	nilSeen int32
-	lateCb  int32
-	nilOf   []int32 // history: nil calls per query event
-	skipped string  // history-nats: why the embedded server could not be used
+	sc                scenario
+	mu                sync.Mutex
+	log               []entry
+	passive           int32
+	s                 *res.Service
+	cn                *conn
+	qes               []*qeState
+	events            chan *gateEv
+	parked            []*gateEv
+	lgid              map[uint64]int
+	expect            int
+	expSeq            map[int][]int // per Serve run: subscribed query events in creation order
+	expNext           map[int]int
+	run               int      // current Serve run of the service object
+	creator           sync.Map // goid of a goroutine that called QueryEvent -> run
+	nStale            int
+	staleTo           map[int]int // stale request number -> query event it was delivered to
+	undeliv           int
+	served            chan struct{} // closed when the current Serve call has returned
+	settleTimeouts    int
+	rdvOK, rdvTimeout int32
+	impl              []ImplViolation
+	stalled           bool
+	aborted           bool
+	shut              bool
+	cur               sync.Map // goid -> qe index being created
+	inboxK            sync.Map // inbox -> qe index
+	nilSeen           int32
+	lateCb            int32
+	nilOf             []int32 // history: nil calls per query event
+	skipped           string  // history-nats: why the embedded server could not be used
 }
 
 func (r *runner) add(e entry) {
@@ -756,7 +795,7 @@ func release(ev *gateEv, k int) {
 // send plays the connection delivering request j of query event k: non-blocking, logged atomically.
 func (r *runner) send(q *qeState, j int) bool {
 	spec := q.spec.Reqs[j]
-	m := &nats.Msg{Subject: q.inbox, Reply: fmt.Sprintf("R.%d.%d", q.k, j), Data: spec.payload(j)}
+	m := &nats.Msg{Subject: q.inbox, Reply: fmt.Sprintf("R.%d.%d", q.k, j), Data: spec.payload(q.k, j)}
 	g := goid()
 	r.mu.Lock()
 	acc := false
@@ -798,19 +837,63 @@ func (r *runner) cb(q *qeState) func(res.QueryRequest) {
 			return
 		}
 		j := -2
-		if qs := qr.Query(); strings.HasPrefix(qs, "j=") {
-			if n, err := strconv.Atoi(qs[2:]); err == nil && n >= 0 && n < len(q.spec.Reqs) {
+		qs := qr.Query()
+		if strings.HasPrefix(qs, "j=") {
+			var n, tk, tj int
+			if c, _ := fmt.Sscanf(qs, "j=%d&t=%d.%d", &n, &tk, &tj); c == 3 && n >= 0 && n < len(q.spec.Reqs) && qs == sentQuery(q.k, n) {
 				j = n
 			}
-		} else if strings.HasPrefix(qs, "s=") {
+		}
+		if j == -2 && !strings.HasPrefix(qs, "s=") {
+			r.violation("query-mismatch", fmt.Sprintf("the callback of query event %d (sent from %s) was invoked with Query() = %q, which no request sent to it carries", q.k, q.trigDesc(), qs))
+		}
+		if strings.HasPrefix(qs, "s=") {
 			if n, err := strconv.Atoi(qs[2:]); err == nil && n >= 0 {
 				j = staleBase + n // a request that was addressed to a query event of the previous run
 			}
 		}
 		r.add(entry{kind: "cb", k: q.k, j: j})
 		if j >= 0 && j < staleBase {
-			interpret(qr, q.spec.Reqs[j].Script)
+			interpret(qr, q.spec.Reqs[j].Script, func(child int) {
+				// a query event sent from inside this request callback: the QueryRequest is its resource
+				c := r.qes[child]
+				g := goid()
+				r.creator.Store(g, c.run)
+				r.cur.Store(g, child)
+				qr.QueryEvent(r.cb(c))
+				r.cur.Delete(g)
+				close(c.created)
+			}, func() {
+				// rendezvous with the callbacks of the other requests of this query event (Parallel resource: each
+				// runs on its own worker), then look at the query again: it must still be this request's
+				if atomic.AddInt32(&q.rdvIn, 1) == q.rdvN {
+					close(q.rdvCh)
+				}
+				select {
+				case <-q.rdvCh:
+					atomic.AddInt32(&r.rdvOK, 1)
+				case <-time.After(time.Second):
+					atomic.AddInt32(&r.rdvTimeout, 1)
+				}
+				after, t := qr.Query(), qr.ParseQuery().Get("t")
+				if after != sentQuery(q.k, j) || t != fmt.Sprintf("%d.%d", q.k, j) {
+					r.violation("query-mismatch", fmt.Sprintf("the callback of request %d of query event %d (%s, Parallel) was invoked with query %q and, after %d callbacks of the query event had started, sees Query() = %q / ParseQuery t = %q: another request's query",
+						j, q.k, q.rid(), sentQuery(q.k, j), q.rdvN, after, t))
+					r.add(entry{kind: "cb", k: q.k, j: -2})
+				}
+			})
 		}
+	}
+}
+
+func (q *qeState) trigDesc() string {
+	switch {
+	case q.spec.Nested:
+		return "a query request callback of query event " + strconv.Itoa(q.k-1)
+	case q.spec.ViaCall:
+		return fmt.Sprintf("a call handler on %s?%s", q.rid(), q.spec.TrigQuery)
+	default:
+		return fmt.Sprintf("Service.With(%s?%s)", q.rid(), q.spec.TrigQuery)
 	}
 }
 
@@ -828,13 +911,31 @@ func (r *runner) create(q *qeState) {
 		r.cur.Delete(g)
 		close(q.created)
 	}
-	if q.spec.ViaCall {
+	rid := q.rid()
+	if q.spec.TrigQuery != "" {
+		rid += "?" + q.spec.TrigQuery
+	}
+	if q.spec.Nested {
+		// the parent's dedicated request: its callback calls QueryEvent on the QueryRequest
+		parent := r.qes[q.k-1]
+		sent := false
+		for j, rq := range parent.spec.Reqs {
+			if rq.Phase == "N" && len(rq.Script) == 1 && rq.Script[0].V == q.k {
+				r.sendFree(parent, j)
+				sent = true
+			}
+		}
+		if !sent || !parent.subOK {
+			r.violation("harness", "nested query event without a parent request")
+			return
+		}
+	} else if q.spec.ViaCall {
 		r.cn.mu.Lock()
 		in := r.cn.inCh
 		r.cn.mu.Unlock()
 		in <- &nats.Msg{Subject: "call." + q.rid() + ".trigger", Reply: fmt.Sprintf("T.%d", q.k),
-			Data: []byte(fmt.Sprintf(`{"cid":"c1","params":{"k":%d}}`, q.k))}
-	} else if err := r.s.With(q.rid(), mk); err != nil {
+			Data: []byte(fmt.Sprintf(`{"cid":"c1","params":{"k":%d},"query":%q}`, q.k, q.spec.TrigQuery))}
+	} else if err := r.s.With(rid, mk); err != nil {
 		r.violation("harness", "With: "+err.Error())
 		return
 	}
@@ -973,14 +1074,22 @@ func (r *runner) replyOf(subject string) (int, int, bool) {
 }
 
 func (r *runner) settle(d time.Duration) {
+	// not by the wall clock alone: when the whole process is starved for a while (loaded machine) the deadline
+	// would pass without the workers having had a chance to run; count polling rounds as well
 	deadline := time.Now().Add(d)
-	for time.Now().Before(deadline) {
+	for i := 0; time.Now().Before(deadline) || i < 400; i++ {
 		if r.pending() <= 0 {
 			time.Sleep(300 * time.Microsecond) // let the last callback finish publishing
 			return
 		}
+		runtime.Gosched()
 		time.Sleep(500 * time.Microsecond)
 	}
+	r.settleTimeouts++
+	var buf bytes.Buffer
+	pprof.Lookup("goroutine").WriteTo(&buf, 1)
+	fmt.Fprintf(os.Stderr, "settle timeout in scenario %d (%s): %d callbacks accepted by runWith did not run within %v\n%s\n",
+		r.sc.Index, r.sc.Kind, r.pending(), d, buf.String())
 }
 
 func (r *runner) reqsOf(q *qeState, phase string) []int {
@@ -1262,7 +1371,7 @@ func (r *runner) runRacy() {
 				}
 				time.Sleep(time.Duration(rq.Delay) * time.Microsecond)
 				spec := q.spec.Reqs[j]
-				m := &nats.Msg{Subject: q.inbox, Reply: fmt.Sprintf("R.%d.%d", q.k, j), Data: spec.payload(j)}
+				m := &nats.Msg{Subject: q.inbox, Reply: fmt.Sprintf("R.%d.%d", q.k, j), Data: spec.payload(q.k, j)}
 				g := goid()
 				r.mu.Lock()
 				acc := false
@@ -1821,6 +1930,11 @@ func (r *runner) convert() []Case {
 		if q.spec.Res == "p" {
 			tags = append(tags, "parallel")
 		}
+		if q.spec.Nested {
+			tags = append(tags, "sent-from-query-callback")
+		} else if q.spec.TrigQuery != "" {
+			tags = append(tags, "sent-from-resource-with-query")
+		}
 		expired := false
 		for _, l := range c.labels {
 			switch {
@@ -1894,7 +2008,15 @@ func runScenario(sc scenario) result {
 	r := &runner{sc: sc, events: make(chan *gateEv, 65536), lgid: map[uint64]int{}, expect: -1,
 		expSeq: map[int][]int{}, expNext: map[int]int{}, staleTo: map[int]int{}}
 	for k, qs := range sc.QEs {
-		r.qes = append(r.qes, &qeState{spec: qs, k: k, created: make(chan struct{})})
+		q := &qeState{spec: qs, k: k, created: make(chan struct{}), rdvCh: make(chan struct{})}
+		for _, rq := range qs.Reqs {
+			for _, a := range rq.Script {
+				if a.K == "rdv" {
+					q.rdvN++
+				}
+			}
+		}
+		r.qes = append(r.qes, q)
 	}
 	verifhook.SetGate(r.gate)
 	verifhook.SetNote(r.note)
@@ -1917,6 +2039,8 @@ func runScenario(sc scenario) result {
 			r.runRacy()
 		case "restart":
 			r.runRestart()
+		case "parallel":
+			r.runDirected()
 		default:
 			r.runDirected()
 		}
@@ -1927,6 +2051,15 @@ func runScenario(sc scenario) result {
 	out.Impl = r.impl
 	d := out.Dist
 	d["scenario-"+sc.Kind]++
+	if n := atomic.LoadInt32(&r.rdvOK); n > 0 {
+		d["parallel-callbacks-overlapping"] += int(n)
+	}
+	if n := atomic.LoadInt32(&r.rdvTimeout); n > 0 {
+		d["parallel-rendezvous-timeout"] += int(n)
+	}
+	if r.settleTimeouts > 0 {
+		d["settle-timeout"] += r.settleTimeouts
+	}
 	if r.undeliv > 0 {
 		d["stale-request-undelivered"] += r.undeliv
 	}
@@ -1949,6 +2082,13 @@ func runScenario(sc scenario) result {
 		for _, rq := range q.Reqs {
 			d["request-phase-"+rq.Phase]++
 			d["payload-"+[3]string{"query", "missing-query", "malformed"}[rq.PKind]]++
+			if rq.PKind == 1 && payloads[1][rq.PVar%len(payloads[1])] == "" {
+				if q.Nested || q.TrigQuery != "" {
+					d["zero-length-payload-on-event-sent-from-resource-with-query"]++
+				} else {
+					d["zero-length-payload-on-event-sent-from-resource-without-query"]++
+				}
+			}
 			for _, a := range rq.Script {
 				d["action-"+a.K]++
 			}
@@ -2040,6 +2180,10 @@ func genReq(rng *Rng, phase string) reqSpec {
 
 func genQE(rng *Rng, kind string, small bool) qeSpec {
 	q := qeSpec{Res: rng.Pick([]string{"m", "m", "c", "c", "u", "p", "g", "g"}), ID: 1 + rng.Intn(3), ViaCall: rng.Chance(25), FailSub: rng.Chance(8)}
+	if rng.Chance(50) {
+		q.TrigQuery = rng.Pick([]string{"foo=bar", "a=1&b=2", "q", "j=0"})
+	}
+	q.Nested = kind != "racy" && rng.Chance(12)
 	if q.FailSub {
 		return q
 	}
@@ -2083,14 +2227,48 @@ func btoi(b bool) int {
 	return 0
 }
 
+// fixNested keeps the nested flag only where the previous query event can be the parent (same batch / Serve
+// run, subscribed), gives the child the parent's resource and the parent the request whose callback sends it.
+func fixNested(sc *scenario) {
+	start := map[int]bool{0: true}
+	at := 0
+	for _, b := range sc.Batches {
+		start[at] = true
+		at += b
+	}
+	for k := range sc.QEs {
+		q := &sc.QEs[k]
+		if !q.Nested {
+			continue
+		}
+		if start[k] || sc.QEs[k-1].FailSub || sc.QEs[k-1].Run != q.Run {
+			q.Nested = false
+			continue
+		}
+		p := &sc.QEs[k-1]
+		q.Res, q.ID, q.ViaCall, q.TrigQuery = p.Res, p.ID, false, ""
+		p.Reqs = append(p.Reqs, reqSpec{Phase: "N", Script: []action{{K: "nest", V: k}}})
+	}
+}
+
+// raceSubset (-race-subset): only the scenarios with concurrency inside go-res - overlapping callbacks on
+// Parallel resources, restart histories, a few directed and racy ones - few enough for a -race build.
+var raceSubset bool
+
 func generate(o Opts) []scenario {
 	rng := NewRng(o.Seed)
-	nDir, nRacy, nShut, hist, nRestart := 300, 120, 30, 200, 60
+	nDir, nRacy, nShut, hist, nRestart, nPar := 300, 120, 30, 200, 60, 40
 	if o.Tier == "thorough" {
-		nDir, nRacy, nShut, hist, nRestart = 8000, 3000, 800, 2000, 1500
+		nDir, nRacy, nShut, hist, nRestart, nPar = 8000, 3000, 800, 2000, 1500, 1000
 	}
 	if o.N > 0 {
-		nDir, nRacy, nShut, nRestart = o.N, o.N/3, o.N/8, o.N/4+1
+		nDir, nRacy, nShut, nRestart, nPar = o.N, o.N/3, o.N/8, o.N/4+1, o.N/4+1
+	}
+	if raceSubset {
+		nDir, nRacy, nShut, hist, nRestart, nPar = 8, 6, 2, 0, 10, 16
+		if o.Tier == "thorough" {
+			nDir, nRacy, nShut, hist, nRestart, nPar = 80, 60, 20, 200, 100, 160
+		}
 	}
 	var scs []scenario
 	for i := 0; i < nDir+nShut; i++ {
@@ -2118,6 +2296,7 @@ func generate(o Opts) []scenario {
 			sc.Kind = "shutdown"
 			sc.ShutAt = rng.Intn(len(sc.Batches))
 		}
+		fixNested(&sc)
 		scs = append(scs, sc)
 	}
 	for i := 0; i < nRacy; i++ {
@@ -2144,13 +2323,41 @@ func generate(o Opts) []scenario {
 			sc.QEs = append(sc.QEs, q)
 		}
 		sc.NExp = rng.Intn(n0 + 1)
+		sc.Batches = []int{n0, n1}
+		fixNested(&sc)
 		scs = append(scs, sc)
 	}
-	scs = append(scs, scenario{Kind: "history", Workers: 4, History: hist, Seed: rng.Next() % 1000000})
-	scs = append(scs, scenario{Kind: "history-nats", Workers: 4, History: hist, Seed: rng.Next() % 1000000})
+	for i := 0; i < nPar; i++ {
+		// Parallel resources: 2-4 requests delivered back-to-back to a free listener, their callbacks wait for
+		// each other (so they do overlap) and then re-read the query
+		sc := scenario{Kind: "parallel", Workers: 8, Seed: rng.Next() % 1000000}
+		n := 1 + rng.Intn(3)
+		for k := 0; k < n; k++ {
+			q := genQE(rng, "directed", true)
+			q.Res, q.FailSub, q.Nested = "p", false, false
+			var reqs []reqSpec
+			for c := 2 + rng.Intn(3); c > 0; c-- {
+				rq := reqSpec{Phase: "A", PVar: rng.Intn(16), Script: append([]action{{K: "rdv"}}, genScript(rng)...)}
+				reqs = append(reqs, rq)
+			}
+			for _, rq := range q.Reqs {
+				if rq.Phase != "A" && rq.Phase != "H" && rq.Phase != "B" {
+					reqs = append(reqs, rq)
+				}
+			}
+			q.Reqs = reqs
+			sc.QEs = append(sc.QEs, q)
+		}
+		sc.Batches = []int{n}
+		scs = append(scs, sc)
+	}
+	if hist > 0 {
+		scs = append(scs, scenario{Kind: "history", Workers: 4, History: hist, Seed: rng.Next() % 1000000})
+		scs = append(scs, scenario{Kind: "history-nats", Workers: 4, History: hist, Seed: rng.Next() % 1000000})
+	}
 	for i := range scs {
 		scs[i].Index = i
-		scs[i].Gen = genRef{Seed: o.Seed, Tier: o.Tier, N: o.N, Index: i}
+		scs[i].Gen = genRef{Seed: o.Seed, Tier: o.Tier, N: o.N, Index: i, Subset: raceSubset}
 	}
 	return scs
 }
@@ -2179,6 +2386,7 @@ func runWorker(in string) {
 func main() {
 	worker := flag.String("worker", "", "internal: run the scenarios of this file")
 	procs := flag.Int("procs", 0, "worker processes (default: min(8, NumCPU))")
+	flag.BoolVar(&raceSubset, "race-subset", false, "only the scenarios with concurrency inside go-res (Parallel query requests, restarts, a few directed/racy ones); meant for -race builds")
 	o := ParseOpts()
 	if *worker != "" {
 		runWorker(*worker)
@@ -2192,6 +2400,7 @@ func main() {
 		if err := LoadReplay(o.Replay, &d); err != nil {
 			panic(err)
 		}
+		raceSubset = d.Gen.Subset
 		all := generate(Opts{Seed: d.Gen.Seed, Tier: d.Gen.Tier, N: d.Gen.N})
 		if d.Gen.Index < 0 || d.Gen.Index >= len(all) {
 			panic("replay: no such generated scenario")
@@ -2298,9 +2507,12 @@ func main() {
 			"expiry, buffered up to and beyond the channel capacity, while the expiry is held, between done and the nil call, after the listener "+
 			"returned), racy schedules (requests sent by a free-running goroutine around the expiry, seeded yield perturbation), shutdown before "+
 			"the expiry, failed subscriptions, callbacks as random scripts of replies/events/timeouts/panics, malformed payloads and missing "+
-			"queries, restart histories on ONE service object (run 0 with query events of which some expire and some are still active at Shutdown, "+
+			"queries (zero-length body, null, {}, empty/null query field, whitespace only, ...), query events sent from resources without and WITH a query "+
+			"(Service.With(rid?query), call request with a query, QueryEvent from inside a query request callback), the callback's Query() checked against "+
+			"the query sent in the request, restart histories on ONE service object (run 0 with query events of which some expire and some are still active at Shutdown, "+
 			"Serve again on a fresh connection object, run 1 with new query events, requests published on the subjects of run 0, the old query "+
 			"events expiring inside the restarted service: all subjects over the whole history pairwise distinct, nothing answers a stale request), "+
+			"Parallel resources with 2-4 request callbacks of one query event made to overlap (they wait for each other, then re-read Query()/ParseQuery()), "+
 			"model/collection/untyped/grouped/Parallel resources (Parallel excluded from the ordering claim), query events created "+
 			"with Service.With and from call handlers; two histories of 200 (quick) / 2,000 (thorough) expired query events - scripted Conn: goroutine "+
 			"count and goroutine profile back to the baseline, callbacks = requests taken; real nats.go connection to an embedded nats-server with a "+
